@@ -36,7 +36,9 @@ def gen_project(r):
         if deps[nm] and r.random() < 0.2:
             deps[nm].append(r.choice(deps[nm]))          # the same dependency asked for twice
         k = 0 if r.random() < 0.3 else r.randint(1, 4)
-        lines[nm] = ["L-%s-%d%s" % (nm.replace("/", "_"), q, "   " if r.random() < 0.15 else "") for q in range(k)]
+        # some lines are indented, some end in blanks, some both (clean_line trims the END only)
+        lines[nm] = ["%sL-%s-%d%s" % ("    " if r.random() < 0.2 else "", nm.replace("/", "_"), q, "   " if r.random() < 0.25 else "")
+                     for q in range(k)]
         kind[nm] = r.choice(["plain"] * 5 + ["fail", "partial", "partial_only"])
     if r.random() < 0.3:
         kind[r.choice(names)] = r.choice(["recordlike", "ghostdo", "baddone"])
@@ -144,7 +146,7 @@ def property_oracle(p, q):
         want = [] if p["kind"][nm] == "partial_only" else [l.rstrip() for l in p["lines"][nm]]
         if p["kind"][nm] in ("partial", "partial_only"):
             want = want + ["tail-" + tag]
-        mine = lambda l: l.startswith("L-%s-" % tag) or l == "tail-" + tag
+        mine = lambda l: l.strip().startswith("L-%s-" % tag) or l == "tail-" + tag
         got = []
         for key, ls in attr.items():
             k = None if key is None else os.path.normpath(key)
